@@ -1,0 +1,71 @@
+//go:build verif
+
+package container
+
+import (
+	"fmt"
+	"os"
+	"sync"
+
+	"github.com/criyle/go-sandbox/pkg/unixsocket"
+)
+
+var (
+	verifMu     sync.Mutex
+	verifEvents []string
+)
+
+// verifEvent records one wire-level protocol event.  The host keeps its log
+// in memory (VerifTakeEvents); the container init writes it to its stderr.
+func verifEvent(side, dir, kind string) {
+	if side == "cont" {
+		fmt.Fprintf(os.Stderr, "VERIF %s %s\n", dir, kind)
+		return
+	}
+	verifMu.Lock()
+	verifEvents = append(verifEvents, dir+" "+kind)
+	verifMu.Unlock()
+}
+
+// VerifTakeEvents returns and clears the host side log.
+func VerifTakeEvents() []string {
+	verifMu.Lock()
+	defer verifMu.Unlock()
+	r := verifEvents
+	verifEvents = nil
+	return r
+}
+
+func verifCmdKind(c cmd) string {
+	switch c.Cmd {
+	case cmdPing:
+		return "ping"
+	case cmdOpen:
+		return "open"
+	case cmdDelete:
+		return "delete"
+	case cmdReset:
+		return "reset"
+	case cmdExecve:
+		return "execve"
+	case cmdOk:
+		return "ok"
+	case cmdKill:
+		return "kill"
+	case cmdConf:
+		return "conf"
+	case cmdSymlink:
+		return "symlink"
+	}
+	return fmt.Sprintf("cmd%d", c.Cmd)
+}
+
+func verifReplyKind(r reply, m unixsocket.Msg) string {
+	switch {
+	case r.Error != nil:
+		return "err"
+	case r.ExecReply != nil:
+		return "result"
+	}
+	return "ack"
+}
